@@ -77,11 +77,14 @@ class Recorder:
         self.samples: list[typing.Any] = []
         self.failures: list[dict[str, typing.Any]] = []
         self.failure_count = 0
+        self.dropped_failures = 0
         self.extra_counts: dict[str, int] = {}
         self.extra_sets: dict[str, set[str]] = {}
         self.inconclusive: list[str] = []
         self.exhaustive_parts: list[str] = []
         self._sample_tags: set[str] = set()
+        self.known: dict[str, dict[str, typing.Any]] = {}
+        self._open_known = load_open_known()
 
     # -- cases ------------------------------------------------------------------------------
     def case(self, desc: typing.Any, nontrivial: bool = True) -> None:
@@ -116,9 +119,21 @@ class Recorder:
     def fail(self, case: typing.Any, kind: str, observed: typing.Any = None, msg: str = "") -> None:
         """A refuting observation.  ``kind`` names the violated clause; ``observed`` is the signature
         the findings classifier looks at; ``case`` must be enough for --replay."""
+        from vf import findings as F
+
         self.failure_count += 1
+        f = json.loads(canon({"case": case, "kind": kind, "observed": observed, "msg": msg}))
+        key = F.classify(self.ctx.prop, f)
+        if key and f"{self.ctx.prop}/{key}" in self._open_known:
+            # attributed to a listed finding (precondition and signature both matched): counted, one example kept
+            k = self.known.setdefault(key, {"count": 0, "example": f})
+            k["count"] += 1
+            return
+        f["classified_as"] = key
         if len(self.failures) < MAX_FAILS_PER_SHARD:
-            self.failures.append(json.loads(canon({"case": case, "kind": kind, "observed": observed, "msg": msg})))
+            self.failures.append(f)
+        else:
+            self.dropped_failures += 1
 
     def note_inconclusive(self, reason: str) -> None:
         if reason not in self.inconclusive:
@@ -132,12 +147,25 @@ class Recorder:
             "samples": self.samples,
             "failures": self.failures,
             "failure_count": self.failure_count,
+            "dropped_failures": self.dropped_failures,
+            "known": self.known,
             "extra_counts": self.extra_counts,
             "extra_sets": {k: sorted(v) for k, v in self.extra_sets.items()},
             "inconclusive": self.inconclusive,
             "exhaustive_parts": self.exhaustive_parts,
             "wall_s": round(self.ctx.elapsed(), 3),
         }
+
+
+def load_open_known() -> set[str]:
+    here = os.path.dirname(os.path.dirname(os.path.abspath(__file__)))
+    path = os.path.join(here, "known_findings.json")
+    try:
+        with open(path) as fh:
+            data = json.load(fh)
+    except FileNotFoundError:
+        return set()
+    return {f"{e['property']}/{e['key']}" for e in data.get("findings", []) if e.get("status", "open") == "open"}
 
 
 def assert_repo_tree() -> str:
